@@ -34,6 +34,20 @@ class ThresholdPairCorr(Corr):
                         r["gt"]["label"] = "car"
             k = rng.choice([1, 2, 3])
             targets = rng.sample(A.LABELS[:4], k)
+            if i % 4 == 1:
+                # one label, every estimate paired with an ordinary ground truth of that label, distinct confidences, headings all over the
+                # circle and distances spread over the threshold grid: the rankings in which a result that becomes a TP only at the looser
+                # threshold has a small heading weight (APH must still not drop)
+                scene = A.gen_scene(rng, n=rng.randint(3, 9))
+                confs = rng.sample(range(1, 64), len(scene["results"]))
+                for r, cf in zip(scene["results"], confs):
+                    if r["gt"] is None:
+                        r["gt"] = A.gen_spec(rng, label="car")
+                    r["gt"]["label"] = "car"
+                    d = rng.choice([0.0, 0.125, 0.5, 0.625, 1.0, 1.25, 2.0, 2.5, 5.0])
+                    r["est"] = {"label": "car", "pos": [r["gt"]["pos"][0] + d, r["gt"]["pos"][1], r["gt"]["pos"][2]], "size": list(r["gt"]["size"]),
+                                "yaw": rng.choice(A.YAWS), "conf": cf / 64}
+                targets = ["car"]
             pool = IOU_T if A.MAXIMIZE[mode] else DIST_T
             t1 = [rng.choice(pool) for _ in targets]
             t2 = [loosen(rng, mode, t) for t in t1]
@@ -154,6 +168,65 @@ class C08(Prop):
 
     def correspondences(self):
         return [ThresholdPairCorr()]
+
+    def search(self, rng, budget_s):
+        """after a broken tie: (1) a dense sweep that drives the implementation's own precision/recall/area functions
+        (Ap.get_precision_recall_list, Ap._calculate_ap) with synthetic cumulative-TP lists of the family in which monotonicity is most
+        fragile -- one label, every estimate on an ordinary ground truth, each result TP always / only at the looser threshold / never,
+        heading weights all over [0,1] -- every hit is then rebuilt from real objects and confirmed through the public path (run_impl +
+        oracle); (2) the generic thorough stream"""
+        import math
+        import time
+
+        import numpy as np
+        from harness.lib.core import safe_run
+        from perception_eval.evaluation.matching.object_matching import MatchingMode
+        from perception_eval.evaluation.metrics.detection.ap import Ap
+        from perception_eval.evaluation.metrics.detection.tp_metrics import TPMetricsAph
+
+        t0 = time.time()
+        c = ThresholdPairCorr()
+        try:
+            probe = Ap(tp_metrics=TPMetricsAph(), object_results=[], num_ground_truth=1, target_labels=[A.label_enum("car")],
+                       matching_mode=MatchingMode.CENTERDISTANCE, matching_threshold_list=[1.0])
+
+            def area(ws, ngt):
+                probe.tp_list = np.cumsum(ws).tolist()
+                probe.num_ground_truth = ngt
+                pr, rc = probe.get_precision_recall_list()
+                return probe._calculate_ap(pr, rc)
+        except Exception:
+            area = None
+
+        def weight(a, b):
+            d = abs(a - b) % (2 * math.pi)
+            return 1.0 - min(d, 2 * math.pi - d) / math.pi
+        while area is not None and time.time() - t0 < 0.5 * budget_s:
+            n = rng.randint(3, 7)
+            cls = [rng.choice("AALLN") for _ in range(n)]
+            yaws = [(rng.choice(A.YAWS), rng.choice(A.YAWS)) for _ in range(n)]
+            ws = [weight(a, b) for a, b in yaws]
+            ngt = n + rng.choice([0, 0, 1])
+            try:
+                strict = area([w if k == "A" else 0.0 for w, k in zip(ws, cls)], ngt)
+                loose = area([w if k in "AL" else 0.0 for w, k in zip(ws, cls)], ngt)
+            except Exception:
+                break
+            if loose < strict - 1e-9:
+                results = []
+                for i, ((ye, yg), k) in enumerate(zip(yaws, cls)):
+                    gt = {"label": "car", "pos": [16.0 * i - 40.0, 8.0, 0.0], "size": [2.0, 4.0, 1.5], "yaw": yg}
+                    d = {"A": 0.125, "L": 1.0, "N": 5.0}[k]
+                    results.append({"est": {"label": "car", "pos": [gt["pos"][0] + d, 8.0, 0.0], "size": [2.0, 4.0, 1.5], "yaw": ye, "conf": (63 - i) / 64},
+                                    "gt": gt})
+                case = {"scene": {"policy": "DEFAULT", "results": results}, "mode": "CENTERDISTANCE", "targets": ["car"],
+                        "t_strict": [0.5], "t_loose": [2.0], "num_gt": ngt}
+                obs = safe_run(c, case)
+                if isinstance(obs, dict) and "__harness_exception__" not in obs:
+                    msg = c.oracle(case, obs)
+                    if msg:
+                        return c, case, obs, msg
+        return super().search(rng, max(1.0, budget_s - (time.time() - t0)))
 
 
 READY = True
